@@ -776,20 +776,13 @@ func (e *Engine) havocLvalue(st *State, fr *Frame, n *rNode) ([]ptrChoice, bool)
 		return nil, false
 	}
 	if typeIsPkg(ct, "container/list", "List") {
-		l := loc
-		mk := func(s *State) Value {
-			seq := e.fresh(s, "list.seq", SEvSeq)
-			ln := e.fresh(s, "list.len", SInt)
-			s.assume(Ge(ln, IntLit(0)))
-			return VAbs{Kind: "list", ID: e.newCell(s, &ListObj{Seq: seq, Len: ln, NilT: TFalse})}
-		}
-		return []ptrChoice{{set: func(s *State, v Value) {
-			if _, isnil := v.(VNil); isnil {
-				e.store(s, l, VNil{})
-			} else {
-				e.store(s, l, mk(s))
-			}
-		}, options: []Value{VNil{}, VAbs{Kind: "freshlist"}}}}, true
+		// a list pointer that may have become nil: symbolic nil flag, unknown content
+		seq := e.fresh(st, "list.seq", SEvSeq)
+		ln := e.fresh(st, "list.len", SInt)
+		st.assume(Ge(ln, IntLit(0)))
+		isnil := e.fresh(st, "list.isnil", SBool)
+		e.store(st, loc, VAbs{Kind: "list", ID: e.newCell(st, &ListObj{Seq: seq, Len: ln, NilT: isnil})})
+		return nil, true
 	}
 	e.store(st, loc, e.havoc(st, ct, "loophavoc"))
 	return nil, true
